@@ -479,7 +479,7 @@ SPECS['C20'] = dict(
         'overwrites 32 KB of its dead stack; monitors: canary at entry and exit of the call, invocation count == 1, executing tid != starter tid, arguments by address and value, isFinished() false inside the '
         'callable, a poller that sees isFinished() must then see the callable\'s last action, the same after join(); Runnable run once, destroyed once, after run(). ASan build: the same defect class shows as '
         'stack-use-after-scope/-return. non-trivial = the body began after start() had returned; distinct = distinct (kind, args, path, delay bucket) among those',
-        samples, observed=pick(agg, 'starts', 'lateStarts', 'bodyDoneBeforeStartReturned', 'threadCreationFailuresInjected', 'detachedThenJoined', 'polledFinishes', 'runnables', 'canaryChecks', 'argumentIdentityChecks', 'callableCopiesObserved'), kinds=agg.get('kinds', {})),
+        samples, observed=pick(agg, 'starts', 'lateStarts', 'bodyDoneBeforeStartReturned', 'threadCreationFailuresInjected', 'detachedThenJoined', 'polledFinishes', 'reusedThreadObjects', 'maxStartsOfOneObject', 'runnables', 'canaryChecks', 'argumentIdentityChecks', 'callableCopiesObserved'), kinds=agg.get('kinds', {})),
     assumptions=['arguments are lvalues that outlive the thread (the statement quantifies over lvalue argument lists)', 'the Thread object outlives join()'],
     manifest=dict(engine='h_thread', text='Canary-carrying callables under manufactured late scheduling (trampoline delay + dead-stack clobbering) in a plain monitored build, and the same starts under ASan with '
                   'stack-use-after-return detection; completion ordering checked through marks written by the callable.',
